@@ -5,8 +5,8 @@ use common::*;
 use harness::util::*;
 use std::io::Write;
 
-pub fn oracle(_which: &str, _ops: &[Op], _out: &Outcome) -> Option<(String, String)> {
-    None
+pub fn oracle(which: &str, ops: &[Op], out: &Outcome) -> Option<(String, String)> {
+    oracle_for(which, ops, out)
 }
 
 pub struct A;
